@@ -509,6 +509,7 @@ type fakeEngine struct {
 	tDone   time.Time
 	tCancel time.Time
 	mu      sync.Mutex
+	started chan struct{} // closed when Start has taken tDone: the scripted Ctrl-C counts from there
 }
 
 func (e *fakeEngine) Results() <-chan scan.Result { return e.results.Chan() }
@@ -516,6 +517,9 @@ func (e *fakeEngine) Start(ctx context.Context, r *scan.Range) (<-chan interface
 	done := make(chan interface{})
 	errc := make(chan error, 100)
 	e.tDone = time.Now()
+	if e.started != nil {
+		close(e.started)
+	}
 	close(done)
 	go func() {
 		defer close(errc)
@@ -558,7 +562,7 @@ func runExitDelayCase(delayS, slackS, resultsS, parentS string) string {
 	rc := &engRec{t0: time.Now()}
 	cmdCtx, cmdCancel := context.WithCancel(context.Background())
 	defer cmdCancel()
-	fe := &fakeEngine{results: scan.NewResultChan(cmdCtx, 1000), timed: timed}
+	fe := &fakeEngine{results: scan.NewResultChan(cmdCtx, 1000), timed: timed, started: make(chan struct{})}
 	inner, err := log.NewLogger(&recWriter{rc}, "verif", log.Plain())
 	if err != nil {
 		return "logger-error"
@@ -574,7 +578,10 @@ func runExitDelayCase(delayS, slackS, resultsS, parentS string) string {
 	if parentS != "-" {
 		p, _ := strconv.Atoi(parentS)
 		go func() {
-			time.Sleep(time.Duration(p) * time.Millisecond)
+			// "p ms after completion": the clock of the case starts when the engine reports completion (tDone), not
+			// when this goroutine starts — on a starved machine the two are milliseconds apart
+			<-fe.started
+			time.Sleep(time.Until(fe.tDone.Add(time.Duration(p) * time.Millisecond)))
 			cmdCancel()
 		}()
 	}
